@@ -940,12 +940,11 @@ def run(ctx, args):
     load1, ncpu = os.getloadavg()[0], (os.cpu_count() or 1)
     if e2e_env == "0":
         ctx.coverage["e2e"] = "switched off (VERIF_C10_E2E=0)"
-    elif quick and e2e_env not in ("1", "O0") and load1 > 1.5 * ncpu:
-        # idle cost of the e2e section is ~20-40 s (llgo build ~9 s warm, one program ~10 s); on a machine that is
-        # heavily shared it takes minutes and would blow the quick tier's budget: it is then left to the thorough tier
-        ctx.coverage["e2e"] = "skipped in the quick tier: load average %.0f on %d cpus (force with VERIF_C10_E2E=1)" % (load1, ncpu)
-        ctx.log("e2e: " + ctx.coverage["e2e"])
     else:
+        # idle cost of the e2e section is ~20-40 s (llgo build ~9 s warm, one program ~10 s).  It used to be skipped in the quick
+        # tier on a heavily shared machine; a seeded change to the LOWERING of receives (round 3) showed that this leaves the
+        # compiler half of the property unexercised exactly when the machine is busy.  It now always runs; the run-time limit of
+        # the compiled program scales with the load instead (a hang is still a hang, a slow machine is not).
         e2e_part(ctx, ("-O0",) if ((quick and e2e_env != "1") or e2e_env == "O0") else ("-O0", "-O2"))
 
     # verdict on the correspondence
@@ -1023,7 +1022,8 @@ def e2e_part(ctx, opts=("-O0", "-O2")):
         p = e2e.llgo_build(ctx, d, out, opt=opt)
         if p.returncode != 0:
             raise HarnessBuildError("llgo build %s of the C10 e2e program failed: %s" % (opt, (p.stdout + p.stderr)[-3000:]))
-        err, rc = run_capture_stderr(out, 40, d)
+        load1, ncpu = os.getloadavg()[0], (os.cpu_count() or 1)
+        err, rc = run_capture_stderr(out, 40 if load1 <= 1.5 * ncpu else 300, d)
         got = [l for l in err.split("\n") if l]
         obs[opt] = {"rc": rc, "lines": len(got), "tail": got[-3:]}
         # schedule-independent part
